@@ -309,6 +309,27 @@ def check_add_edge(ctx, res: Result, cls: str):
             )
     if not fresh_nodes:
         return
+    # ---- P-EMETA: metadata handed to add_edge for a hyperedge that EXISTS replaces the stored metadata (all four containers):
+    # some write of the `metadata` argument into _edge_metadata is reachable from the `key is present` side of the index test
+    mpar = "metadata" if any(a.arg == "metadata" for a in v.fi.params) else None
+    if mpar:
+        mw = [o for o in v.ops(with_calls=True) if o.table == "_edge_metadata" and o.op == "store" and not o.elem_level]
+        fed = [o for o in mw if any(isinstance(x, ast.Name) and x.id == mpar for x in ast.walk(o.at if o.via else (v.inline(o.value, depth=2) if o.value is not None else o.node)))]
+        if fed:
+            reach = False
+            for tid, lab, _ifn in fresh_nodes:
+                other = "F" if lab == "T" else "T"
+                starts = list(v.cfg.succ(tid, other))
+                for o in fed:
+                    oid = _cfgid(v, o.at)
+                    if any(s0 == oid or v.cfg.reachable(s0, oid) for s0 in starts):
+                        reach = True
+            if reach:
+                res.ok("P-EMETA", f, norm(fed[0].node)[:80], "existing", _where(v, fed[0].node))
+            else:
+                _absent(res, v, "P-EMETA", norm(fed[0].node)[:80], "existing", f"the `{mpar}` argument reaches _edge_metadata only when the hyperedge is new: add_edge(<existing hyperedge>, metadata=...) silently keeps the old metadata (the four containers replace it)", _where(v, fed[0].node))
+        else:
+            res.unknown("P-EMETA", f, f"_edge_metadata[id] = {mpar}", "existing", "how the metadata argument reaches the metadata table was not established", _where(v, v.fi.node))
     # ---- P-ACCUM: weight writes outside the fresh branch are `+= weight` under the weighted flag
     wparam = "weight"
     outside = []
@@ -892,6 +913,24 @@ def check_remove_node(ctx, res: Result, cls: str):
                     merges = [o for o in v.ops() if o.table == "_weights" and o.op in ("aug", "store")] + [n for n in walk_no_nested(v.fi.node) if isinstance(n, ast.Call) and isinstance(n.func, ast.Attribute) and is_self_attr(n.func) and n.func.attr == "set_weight"]
                     verdict, why = ("unknown", "the re-insertion is skipped when the key exists; a hand-written merge was found but not checked") if merges else ("violation", f"the shrunken hyperedge is re-inserted only when `{norm(exists_test)}` is not yet a record: when it is, add_edge - which adds the weight to the existing record - is skipped and the weight of the removed record is lost")
         res.add("P-REINSERT", f, norm(c), "always", verdict, why, _where(v, c))
+        # the re-inserted record carries the metadata of the removed one; where the argument is made conditional on "a record
+        # with that key exists already", the test has to be about the WHOLE key (node set and time / layer): a test on the node
+        # set alone withholds the metadata whenever the same node set is recorded at another time / in another layer
+        marg = next((kw.value for kw in c.keywords if kw.arg == "metadata"), None)
+        if marg is not None:
+            mi = v.inline(marg, depth=2)
+            if isinstance(mi, ast.IfExp) and any(isinstance(a_, ast.Constant) and a_.value is None or (isinstance(a_, ast.Dict) and not a_.keys) for a_ in (mi.body, mi.orelse)):
+                test_i = v.inline(mi.test, depth=3)
+                tnames = {x.id for x in ast.walk(test_i) if isinstance(x, ast.Name)} | {x.id for x in ast.walk(mi.test) if isinstance(x, ast.Name)}
+                keyargs = [a_ for a_ in c.args] + [kw.value for kw in c.keywords if kw.arg in ("time", "layer", "edge")]
+                keyargs = [a_ for a_ in keyargs if not (isinstance(a_, ast.Name) and a_.id in ("weight", "metadata"))]
+                missing = [a_ for a_ in keyargs if {x.id for x in ast.walk(a_) if isinstance(x, ast.Name)} and not ({x.id for x in ast.walk(a_) if isinstance(x, ast.Name)} & tnames) and not ({x.id for x in ast.walk(v.inline(a_, depth=1)) if isinstance(x, ast.Name)} & tnames)]
+                if missing and len(keyargs) >= 2:
+                    res.violation("P-REINSERT", f, norm(marg)[:80], "metadata-carried", f"the metadata of the removed record is withheld when `{norm(test_i)[:60]}`, a test that does not involve `{norm(missing[0])}`: a record of the same node set under ANOTHER {norm(missing[0])} makes the shrunken hyperedge lose its metadata although nothing is merged", _where(v, c))
+                else:
+                    res.unknown("P-REINSERT", f, norm(marg)[:80], "metadata-carried", "the metadata handed to the re-insertion is conditional; the condition was not decided", _where(v, c))
+            else:
+                res.ok("P-REINSERT", f, norm(marg)[:80], "metadata-carried", _where(v, c))
     # P-LOOPVAR: key components used after the loop that bound them (stale time / layer / edge)
     for ob in stale_loop_vars(v):
         res.violation("P-LOOPVAR", f, ob[0], ob[1], "a loop variable is used after its loop ended: the re-inserted record takes the key component (time / layer) of the last processed record", ob[2])
@@ -1131,10 +1170,11 @@ def _emptiness_tests(v: FuncView):
     return out
 
 
-def check_isolation(ctx, res: Result, cls: str):
+def check_isolation(ctx, res: Result, cls: str = None, targets=None):
     """Q-ISO: a node is isolated when it has no NEIGHBOUR.  A node whose only hyperedges are singletons has incident
     hyperedges and no neighbour, so isolation decided from the incidence lists / a degree is a different predicate."""
-    targets = [f"{cls}.{m}" for m in ("isolated_nodes", "is_isolated") if m in ctx.methods(cls)]
+    if targets is None:
+        targets = [f"{cls}.{m}" for m in ("isolated_nodes", "is_isolated") if m in ctx.methods(cls)]
     seen = set()
     work = [(ctx.require(d), 0) for d in targets]
     while work:
@@ -1181,6 +1221,14 @@ def check_isolation(ctx, res: Result, cls: str):
                             res.ok("Q-ISO", f, norm(n), "delegates", _where(v, n))
                             decided = True
                             work.append((callee, depth + 1))
+                        elif not decided and callee.name.startswith("_") and callee.cls is None and callee.module is fi.module:
+                            # a private predicate of the same module used as the test: `if _has_no_incidences(hg, node, ...)`
+                            par = v.parent.get(id(n))
+                            while isinstance(par, (ast.UnaryOp, ast.BoolOp)):
+                                par = v.parent.get(id(par))
+                            if isinstance(par, (ast.If, ast.IfExp, ast.comprehension, ast.Return, ast.While)):
+                                work.append((callee, depth + 1))
+                                decided = True
         if not decided:
             res.unknown("Q-ISO", f, f"def {fi.name}", "by-neighbours", "how isolation is decided was not recognised", loc(fi, fi.node))
 
